@@ -86,6 +86,9 @@ type EnvConfig struct {
 	// PayableHandlerTwice wires the container first with a permissive payability oracle, then with
 	// the real one (the later handler is the one in force)
 	PayableHandlerTwice bool
+	// NotifierEpoch, if non-nil, is the epoch the notifier is in when the functions subscribe: it is
+	// confirmed to every subscriber on registration
+	NotifierEpoch *uint32
 }
 
 type alwaysPayable struct{}
@@ -137,12 +140,17 @@ type Env struct {
 
 // Notifier is the harness epoch notifier: it records subscribers and confirms epochs on demand.
 type Notifier struct {
-	Subs []vmcommon.EpochSubscriberHandler
+	Subs    []vmcommon.EpochSubscriberHandler
+	Current *uint32
 }
 
 // RegisterNotifyHandler implements vmcommon.EpochNotifier.
 func (n *Notifier) RegisterNotifyHandler(h vmcommon.EpochSubscriberHandler) {
 	n.Subs = append(n.Subs, h)
+	if n.Current != nil {
+		// a node's notifier tells a new subscriber the epoch it is in
+		h.EpochConfirmed(*n.Current, 0)
+	}
 }
 
 // IsInterfaceNil implements vmcommon.EpochNotifier.
@@ -173,7 +181,7 @@ func NewEnv(cfg EnvConfig) (*Env, error) {
 	}
 	e.DNSMap = dns
 	for i := 0; i < cfg.NumShards; i++ {
-		se := &ShardEnv{ID: uint32(i), notifier: &Notifier{}}
+		se := &ShardEnv{ID: uint32(i), notifier: &Notifier{Current: cfg.NotifierEpoch}}
 		se.coord = &coordinator{env: e, self: uint32(i)}
 		se.adapter = &adapter{env: e, shard: uint32(i)}
 		f, err := builtInFunctions.NewBuiltInFunctionsFactory(builtInFunctions.ArgsCreateBuiltInFunctionContainer{
